@@ -209,6 +209,47 @@ def debug_flag(sid, which, **slots):
     return None
 
 
+def _stream_events(enc, spec, c1, seekable):
+    s = vs.ArrivalStream(enc, [c1], eof_with_last=True, seekable=seekable)
+    out = []
+    it = iter(ber_decoder.StreamingDecoder(s, asn1Spec=spec))
+    for _ in range(12):
+        try:
+            o = next(it)
+        except StopIteration:
+            out.append("stop")
+            return out
+        except error.PyAsn1Error as ex:
+            out.append("error:" + type(ex).__name__)
+            return out
+        if isinstance(o, error.SubstrateUnderrunError):
+            out.append("underrun")
+            s.advance()
+        else:
+            out.append(der_encoder.encode(o))
+    return out
+
+
+def debug_stream(sid, seekable, indef, c1, **slots):
+    """Streaming decode over a two-chunk arrival, with and without debug logging: same events (objects, underruns, end)."""
+    e = by_id(sid)
+    av = e.mk(**slots)
+    t = _fresh(e.t)
+    spec, v = mk_type(t), build(t, av)
+    enc = ber_encoder.encode(v, defMode=not indef)
+    if c1 > len(enc):
+        raise Skip()
+    plain = _stream_events(enc, spec, c1, seekable)
+    debug.setLogger(debug.Debug("all", printer=lambda *a: None))
+    try:
+        logged = _stream_events(enc, spec, c1, seekable)
+    finally:
+        debug.setLogger(0)
+    if logged != plain:
+        return "streaming decode gives different events with debug logging on: %s vs %s" % (logged[-2:], plain[-2:])
+    return None
+
+
 def _run_alone(st, cut):
     s = vs.ArrivalStream(st.data, [cut], eof_with_last=True)
     out = []
@@ -283,6 +324,14 @@ for e in all_entries():
     OBLIGATIONS.append(entry_obl("debug_flag", debug_flag, e, extra={"which": I(0, CALLS - 1)}, narrow=True, budget=120,
                                  extra_shards=[dict(fix, which=C(w)) for w in range(CALLS)],
                                  tiers=tiers if e.id in ("seq", "set_mixed", "seqof_int", "choice.E", "bits", "octs", "seq_any") else ("thorough",)))
+for _sid in ("seq_any", "seq_any.E", "seq", "choice.E", "seqof_int", "set_mixed"):
+    e = by_id(_sid)
+    fix = dict((k, v) for k, v in FIX.items() if k in e.params and k not in e.shard)
+    OBLIGATIONS.append(entry_obl("debug_stream", debug_stream, e, extra={"seekable": B, "indef": B, "c1": I(0, 24)}, narrow=True, budget=150,
+                                 extra_shards=[dict(fix, seekable=C(sk), indef=C(ind)) for sk in (False, True) for ind in (False, True)],
+                                 tiers=("quick", "thorough") if _sid in ("seq_any", "seq", "choice.E") else ("thorough",),
+                                 doc="streaming decoder over every two-chunk arrival with and without debug logging"))
+    OBLIGATIONS[-1].per_path = 8.0
 PAIRS = [("der_seq", "ber_indef_chunked"), ("cer_set", "choice_expl_indef"), ("two_ints_octs", "bits_chunked"), ("der_seq", "der_seq"), ("hi_tag", "der_seq_x2")]
 for (a, b) in PAIRS:
     OBLIGATIONS.append(Obl("interleave:%s+%s" % (a, b), interleave,
